@@ -336,7 +336,7 @@ func noiseRetrigger(c *rig.Ctx) {
 			}
 			var bits []uint8
 			prev := m.Audio.XWaveState().LFSR
-			for k := 0; k < 400 && len(bits) < 300; k++ {
+			for k := 0; k < 700 && len(bits) < 300; k++ { // one shift every two machine cycles
 				m.Audio.EndMachineCycle()
 				cur := m.Audio.XWaveState().LFSR
 				// two shifts per machine cycle at this setting: replay the reference to count them
@@ -352,7 +352,7 @@ func noiseRetrigger(c *rig.Ctx) {
 				prev = cur
 			}
 			if len(bits) < 200 {
-				c.Violate("noise-retrigger-stuck", fmt.Sprintf("channel 4 playing with NR43=%02X for %d cycles, then NR43=%02X and a new trigger: only %d shifts in 400 machine cycles (800 expected)", first, d, second, len(bits)), nil)
+				c.Violate("noise-retrigger-stuck", fmt.Sprintf("channel 4 playing with NR43=%02X for %d cycles, then NR43=%02X and a new trigger: only %d shifts in 700 machine cycles (350 expected)", first, d, second, len(bits)), nil)
 				return
 			}
 			// no period shorter than the maximal one
